@@ -625,7 +625,13 @@ class Array(metaclass=MetaArray):
             shape = get_shape_from_array(value, len(self._shape))
             fits = tuple(shape) == tuple(self._shape)
         if fits:
-            self.__class__._to_buffer(self._buffer, self._offset, value)
+            info = self.__class__._inspect_args(value)
+            if info.size > self._get_size():  # size is fixed at creation
+                raise ValueError(
+                    f"{value} needs {info.size} bytes and does not fit in "
+                    f"the {self._get_size()} bytes of {self}"
+                )
+            self.__class__._to_buffer(self._buffer, self._offset, value, info)
         else:
             if is_integer(value):
                 raise ValueError(f"Cannot specify new length {ll} for {self}")
